@@ -191,29 +191,28 @@ impl<V: Clone> CacheRing<V> {
     pub fn put(&self, key: &str, value: V, cost: f64, size_bytes: usize) {
         let key_hash = Self::hash_key(key);
 
-        // Check if key already exists and update in place
-        {
-            let existing_slot = self.index.read().get(&key_hash).copied();
-            if let Some(slot_idx) = existing_slot {
-                let mut slots = self.slots.write();
-                if let Some(ref mut entry) = slots[slot_idx] {
-                    if entry.key == key {
-                        entry.value = value;
-                        entry.last_access = Instant::now();
-                        entry.access_count += 1;
-                        entry.cost = cost;
-                        entry.size_bytes = size_bytes;
-                        return;
-                    }
+        // The whole insert runs under the write locks (lock order: slots, then index):
+        // looking for a free slot before taking them let two concurrent puts pick the
+        // same slot, and the later one silently replaced the earlier one's entry.
+        let mut slots = self.slots.write();
+        let mut index = self.index.write();
+
+        // Key already present: update in place
+        if let Some(&slot_idx) = index.get(&key_hash) {
+            if let Some(ref mut entry) = slots[slot_idx] {
+                if entry.key == key {
+                    entry.value = value;
+                    entry.last_access = Instant::now();
+                    entry.access_count += 1;
+                    entry.cost = cost;
+                    entry.size_bytes = size_bytes;
+                    return;
                 }
             }
         }
 
         // Find a slot: either empty or evict lowest-scored
-        let slot_idx = self.find_slot_for_insert();
-
-        let mut slots = self.slots.write();
-        let mut index = self.index.write();
+        let slot_idx = self.find_slot_in(&slots);
 
         // Remove old entry from index if slot was occupied
         if let Some(ref old_entry) = slots[slot_idx] {
@@ -238,8 +237,7 @@ impl<V: Clone> CacheRing<V> {
         drop(slots);
     }
 
-    fn find_slot_for_insert(&self) -> usize {
-        let slots = self.slots.read();
+    fn find_slot_in(&self, slots: &[Option<CacheEntry<V>>]) -> usize {
         let scorer = EvictionScorer::new(self.strategy);
         let now = Instant::now();
 
@@ -248,10 +246,7 @@ impl<V: Clone> CacheRing<V> {
 
         for (idx, slot) in slots.iter().enumerate() {
             match slot {
-                None => {
-                    drop(slots);
-                    return idx; // Empty slot, use immediately
-                },
+                None => return idx, // Empty slot, use immediately
                 Some(entry) => {
                     let age_secs = now.duration_since(entry.last_access).as_secs_f64();
                     let score =
@@ -263,7 +258,6 @@ impl<V: Clone> CacheRing<V> {
                 },
             }
         }
-        drop(slots);
 
         best_slot
     }
